@@ -636,6 +636,7 @@ class SStr:
         raise Unsupported("ordering of symbolic text")
 
     _CASE_SPECIAL = {}
+    _CASE_FRESH = {}
 
     @classmethod
     def _case_special(cls, up):
@@ -676,8 +677,11 @@ class SStr:
                 wd += [None] * len(hit)
                 continue
             # any other non-ASCII character maps to one non-ASCII character (which one is left unconstrained)
-            f = z3.BitVec(sym.fresh("casemap"), 21)
-            sym.assume(z3.And(z3.UGE(f, 128), z3.ULE(f, 0x10FFFF)))
+            key = (ch.get_id(), up)
+            if key not in SStr._CASE_FRESH:
+                SStr._CASE_FRESH[key] = (ch, z3.BitVec(sym.fresh("casemap"), 21))     # one symbol per (character, direction)
+            f = SStr._CASE_FRESH[key][1]
+            sym.assume(z3.And(z3.UGE(f, 128), z3.ULE(f, 0x10FFFF), z3.Or(z3.ULT(f, 0xD800), z3.UGT(f, 0xDFFF))))
             out.append(f)
             wd.append(None)
         return SStr(out, wd)
@@ -734,6 +738,20 @@ class SStr:
             return SBytes(out)
         if self.is_concrete():
             return "".join(self.c).encode(enc, errors)
+        try:
+            ascii_compatible = bytes(range(128)).decode(enc) == bytes(range(128)).decode("ascii")
+        except Exception:
+            ascii_compatible = False
+        if ascii_compatible:
+            out = []
+            for ch in self.c:
+                if isinstance(ch, str):
+                    out += list(ch.encode(enc, errors))
+                elif sym._forced(z3.ULT(ch, 128)):
+                    out.append(z3.Extract(7, 0, ch))
+                else:
+                    raise Unsupported("encode(%s) of a possibly non-ASCII symbolic character" % enc)
+            return SBytes(out)
         raise Unsupported("encode(%s) of symbolic text" % enc)
 
     def __repr__(self):
